@@ -458,16 +458,14 @@ func (m *Machine) ActSchedule(t *rapid.T) {
 	}
 	info, _ := s0.Info(p)
 	seq := m.stimulus("schedule %s reserved=%v (running=%d waiting=%d expect=%s)", p, reserved, len(running), len(waiting), exp)
+	useHTTP := m.viaHTTP(t)
 	before := time.Now()
-	job, err := m.w.PR.ScheduleAsync(p, prunner.ScheduleOpts{Variables: vars, User: user})
+	jobID, err := m.scheduleVia(useHTTP, p, vars, user)
 	after := time.Now()
 	m.w.Stats.hit("schedule:" + string(exp))
 
 	if err != nil {
 		m.w.tracef("  -> rejected: %v", err)
-		if job != nil {
-			m.fail("C05", "schedule %s returned both a job and an error", p)
-		}
 		s1 := m.settle("rejected schedule")
 		if exp != admReject {
 			m.fail("C05", "schedule request for %s rejected (%v) with running=%d waiting=%d: expected %s", p, err, len(running), len(waiting), exp)
@@ -486,11 +484,7 @@ func (m *Machine) ActSchedule(t *rapid.T) {
 		m.afterStep()
 		return
 	}
-	if job == nil {
-		m.fail("*", "ScheduleAsync returned neither job nor error")
-		return
-	}
-	rec := &JobRec{ID: job.ID, Pipeline: p, Def: CopyPipeline(def), Vars: vars, User: user, AcceptSeq: seq, PipeGen: m.pipeGen[p], Delayed: def.StartDelay > 0, FailedTasks: map[string]bool{}}
+	rec := &JobRec{ID: jobID, Pipeline: p, Def: CopyPipeline(def), Vars: vars, User: user, AcceptSeq: seq, PipeGen: m.pipeGen[p], Delayed: def.StartDelay > 0, FailedTasks: map[string]bool{}}
 	if reserved {
 		rec.Bad = "reserved variable"
 	} else if IsCyclic(def.Tasks) {
@@ -502,7 +496,7 @@ func (m *Machine) ActSchedule(t *rapid.T) {
 	rec.Waited = !immediate
 	m.w.tracef("  -> accepted as #%d immediate=%v bad=%q", rec.AcceptIdx, immediate, rec.Bad)
 	s1 := m.settle("schedule")
-	js := s1.Jobs[job.ID]
+	js := s1.Jobs[jobID]
 
 	if undefined {
 		m.fail("C05", "schedule request for an undefined pipeline accepted")
@@ -607,7 +601,7 @@ func (m *Machine) ActCancel(t *rapid.T) {
 	if len(ord) == 0 || pct(t, 4, "cancelUnknown") {
 		id := uuid.Must(uuid.NewV4())
 		m.stimulus("cancel unknown id")
-		err := m.w.PR.CancelJob(id)
+		err := m.cancelVia(m.viaHTTP(t), id)
 		if err != prunner.ErrJobNotFound {
 			m.fail("C04", "cancel of an unknown id returned %v, want ErrJobNotFound", err)
 		}
@@ -650,8 +644,9 @@ func (m *Machine) ActCancel(t *rapid.T) {
 	}
 	held := m.heldLocked(j)
 	m.w.mu.Unlock()
+	useHTTP := m.viaHTTP(t)
 	seq := m.stimulus("cancel #%d (%s, open tasks=%d, held=%v)", j.AcceptIdx, class, openBefore, held)
-	err := m.w.PR.CancelJob(j.ID)
+	err := m.cancelVia(useHTTP, j.ID)
 	m.w.tracef("  -> %v", err)
 	m.w.Stats.hit("cancel:" + class)
 	switch class {
